@@ -55,7 +55,7 @@ impl Check for C16 {
         "C16"
     }
     fn rule(&self) -> String {
-        "names from a grammar (empty; first byte '.', '/', '\\\\'; embedded '/', '..' and '.' components, trailing '/', '//', paths into .kismet_temp / shard directories / nested directories / dot-files / the sentinels outside the root; 255- and 256-byte names; over-long paths; non-ASCII; embedded NUL) plus tape-driven mutations x every operation (get, touch, set, put, set_temp_file, put_temp_file, ensure, get_or_update x 3) x plain / sharded / stacked / read-only front-ends x pre-states (component `a` absent, a directory, a file; key present) inside a sentinel tree (files and directories beside and above the cache root, nested directories and dot-files inside it), optionally with the first publication attempt failing (EIO/ENOENT) so that the retry path runs. Oracle: a name the statement calls invalid => InvalidInput and a byte/mode/timestamp-identical world; any other name => every mutating call resolves to <cache or shard dir>/<name> with <name> one component, to .kismet_temp/*, or to creating those directories, and every sentinel is untouched (atime included). Non-trivial = the name is rejected or contains a separator/NUL/dot component; distinct = (name class, operation, front-end, pre-state, fault)".to_string()
+        "names from a grammar (empty; first byte '.', '/', '\\\\'; embedded '/', '..' and '.' components, trailing '/', '//', paths into .kismet_temp / shard directories / nested directories / dot-files / the sentinels outside the root; 255- and 256-byte names; over-long paths; non-ASCII; embedded NUL) plus tape-driven mutations x every operation (get, touch, set, put, set_temp_file, put_temp_file, ensure, get_or_update x 3) x plain / sharded / stacked / read-only front-ends x pre-states (component `a` absent, a directory, a file; key present) inside a sentinel tree (files and directories beside and above the cache root, nested directories and dot-files inside it), optionally with the first publication attempt failing (EIO/ENOENT) so that the retry path runs, and optionally with capacity 1 and the maintenance trigger firing on every write (a rejected name must not even evict). Oracle: a name the statement calls invalid => InvalidInput and a byte/mode/timestamp-identical world; any other name => every mutating call resolves to <cache or shard dir>/<name> with <name> one component, to .kismet_temp/*, or to creating those directories, and every sentinel is untouched (atime included). Non-trivial = the name is rejected or contains a separator/NUL/dot component; distinct = (name class, operation, front-end, pre-state, fault)".to_string()
     }
     fn runs(&self, tier: Tier) -> u64 {
         match tier {
@@ -72,6 +72,9 @@ impl Check for C16 {
         let nshards = 2 + tape.draw(2) as usize;
         let pre_a = tape.draw(3); // 0 absent, 1 directory, 2 file
         let fail_first_pub = tape.draw(3) == 0;
+        // maintenance dimension: tiny capacity and a trigger that fires on
+        // every write, so that a write would evict the planted entries
+        let fire = tape.draw(3) == 0;
         let fail_errno = *tape.pick(&[libc::ENOENT, libc::EIO]);
         let (kh, ks) = solve_key(tape, nshards, (0, 1));
         let key = KeySpec { name: name.clone(), hash: kh, sec: ks };
@@ -108,9 +111,9 @@ impl Check for C16 {
             }
         }
         fs.plant_file(&format!("{}/good", ro_root), &make_value("good", 59, 4), 0o444, past - 120_000_000_000, past);
-        let dirs = vec![DirSpec { path: root.clone(), kind: if sharded_root { DirKind::Sharded(nshards) } else { DirKind::Plain }, capacity: 1_000_000 }, DirSpec { path: ro_root.clone(), kind: DirKind::Plain, capacity: 1_000_000 }];
+        let dirs = vec![DirSpec { path: root.clone(), kind: if sharded_root { DirKind::Sharded(nshards) } else { DirKind::Plain }, capacity: if fire { if sharded_root { nshards } else { 1 } } else { 1_000_000 } }, DirSpec { path: ro_root.clone(), kind: DirKind::Plain, capacity: 1_000_000 }];
         let mut w = World::new(fs, &kn, tape, 1, 1, dirs, WorldCfg { readonly: vec![1], check_confined: true, extra_writable: vec![] });
-        w.script_trigger(0, vec![], DrawPolicy::Const(u64::MAX));
+        w.script_trigger(0, vec![], DrawPolicy::Const(if fire { FIRE_NOW } else { u64::MAX }));
         let spec = match front {
             0 if !sharded_root => HandleSpec::Plain(0),
             0 | 1 => {
@@ -232,7 +235,10 @@ impl Check for C16 {
             let single = !name.contains('/') && !name.contains('\0') && name != "." && name != "..";
             for c in changed.iter() {
                 let path = c.1.as_str();
-                let ok = (single && expected.iter().any(|e| e == path)) || path.contains("/.kismet_temp") || phys.iter().any(|p| p == path) || path == root;
+                // with maintenance firing, evictions and reprieves of other
+                // entries of the same directories are legitimate effects
+                let maintained = fire && c.0 != "created" && matches!(classify(&w.dirs, path), Loc::Key { .. });
+                let ok = (single && expected.iter().any(|e| e == path)) || path.contains("/.kismet_temp") || phys.iter().any(|p| p == path) || path == root || maintained;
                 if !ok {
                     fail(&mut out, "escape", format!("name {:?} ({}): effect outside the single expected path: {} {:?}", name, op.name(), c.0, c.1));
                 }
@@ -258,9 +264,9 @@ impl Check for C16 {
             5
         };
         out.nontrivial = class < 5;
-        out.sig = hash_str(&format!("{}|{}|{}|{}|{}|{}|{}", class, hash_str(&name) % 64, op.name(), front, sharded_root, pre_a, fail_first_pub));
+        out.sig = hash_str(&format!("{}|{}|{}|{}|{}|{}|{}|{}", class, hash_str(&name) % 64, op.name(), front, sharded_root, pre_a, fail_first_pub, fire));
         if ctx.detail || out.violation.is_some() {
-            let desc = format!("name={:?} op={:?} front={:?} sharded_root={} pre_a={} fail_first_publication={} ({}) result={}", name, op, spec, sharded_root, pre_a, fail_first_pub, fail_errno, res.short());
+            let desc = format!("name={:?} op={:?} front={:?} sharded_root={} pre_a={} fail_first_publication={} ({}) maintenance_fires={} result={}", name, op, spec, sharded_root, pre_a, fail_first_pub, fail_errno, fire, res.short());
             if let Some(v) = out.violation.as_mut() {
                 v.detail.push(desc.clone());
                 v.detail.extend(changed.iter().take(10).map(|c| format!("{} {:?}", c.0, c.1)));
